@@ -9,6 +9,7 @@
 #include <ImathInterval.h>
 #include <ImathMatrix.h>
 #include <limits>
+#include <utility>
 #include <vector>
 #include <string>
 #include <fstream>
@@ -232,6 +233,22 @@ template <class A, class T> static void enumerate (uint64_t seed, int samples)
             if (k < 2) step<A, T> (mn.data (), mx.data (), 6, cn.data (), cx.data ());
         }
         if (s < 8) { const std::vector<int>& p = fin[rng.below ((uint32_t) fin.size ())]; step<A, T> (mn.data (), mx.data (), 5, p.data (), 0); }
+    }
+    // integer element types: corners whose sums are odd and of either sign (size / center / majorAxis then depend on
+    // how the halving rounds; the floating-point types keep to even sums so that every observer stays an integer)
+    if (std::numeric_limits<T>::is_integer)
+    {
+        static const int ODD[5] = {-7, -3, -1, 2, 5};
+        long n = 1; for (int i = 0; i < D; ++i) n *= 5;
+        long pairs = n * n, cnt = D == 1 ? pairs : 2000;
+        for (long s = 0; s < cnt; ++s)
+        {
+            long j = D == 1 ? s : (long) (rng.next () % (uint64_t) pairs);
+            int cn[4], cx[4]; long a = j / n, b = j % n;
+            for (int i = 0; i < D; ++i) { cn[i] = ODD[a % 5]; cx[i] = ODD[b % 5]; a /= 5; b /= 5; }
+            if (s % 2 == 0) for (int i = 0; i < D; ++i) if (cn[i] > cx[i]) std::swap (cn[i], cx[i]);   // a good share of non-empty ones
+            step<A, T> (all[0].data (), all[0].data (), 6, cn, cx);
+        }
     }
 }
 template <class A, class T> static void enumclip (uint64_t seed, int samples)
